@@ -15,7 +15,7 @@ for d in sorted(os.listdir('/verif/seeded')):
         if line:
             break
     rows.append((d, (m.get('summary') or '')[:150].replace('\n', ' ').replace('|', '/'),
-                 'yes' if m['confirmed'] else ('no longer a violation after fix f8891d8' if m.get('note') else 'demo ok, suite flaky'), ','.join(caught) or '-', line.replace('|', '/')))
+                 ('yes (at f8891d8; no longer a violation after fix 07ab881)' if m.get('note_after_fix') else 'yes') if m['confirmed'] else ('no longer a violation after fix f8891d8' if m.get('note') else 'demo ok, suite flaky'), ','.join(caught) or '-', line.replace('|', '/')))
 s = open('/verif/DESIGN.md').read()
 i = s.find('| seed | change (by an independent')
 j = s.find('\n\nMisses of the first evaluation')
